@@ -22,7 +22,7 @@ def apply_desc(d, seq):
 def run(ctx):
     from shapepy import IntegrateShape, JordanCurve
     rng, drv = ctx.rng, ctx.drv
-    n = 40 if ctx.quick else 1200
+    n = 40 if ctx.quick else 400
     for it in range(n):
         kind = shapes.DEFINED[it % len(shapes.DEFINED)]
         S, d = shapes.make(rng, kind, rng.randint(-3, 3), rng.randint(-3, 3), drv)
@@ -68,6 +68,10 @@ def run(ctx):
             if t[0] == "scale":
                 det *= t[1] * t[2]
         ctx.check(IntegrateShape.area(S) == det * IntegrateShape.area(S0), "area is not |det T| times the old area", desc, det * IntegrateShape.area(S0), IntegrateShape.area(S))
+        from harness.props.c04 import rebuild
+        twin = rebuild(d2)
+        ctx.check(abs(float(S) - float(det * IntegrateShape.area(S0))) <= 1e-9 * abs(float(det * IntegrateShape.area(S0))) and float(S) == float(twin), "float(S) after the transformation is not |det T| times the old area", desc, float(twin), float(S))
+        ctx.check(S == twin and twin == S, "transformed shape is not == to the shape built at the new place", desc)
         for (a, b) in [(1, 0), (0, 1), (1, 1), (2, 0)]:
             exp = F(drv.ask(f"moment {shapes.enc_desc(d2)} {a} {b}"))
             ctx.check(IntegrateShape.polynomial(S, a, b) == exp, "moment of the transformed shape", {**desc, "a": a, "b": b}, exp, IntegrateShape.polynomial(S, a, b))
@@ -80,7 +84,7 @@ def run(ctx):
         ctx.check(S == S0, "inverse transformation does not restore an equal shape", desc)
         ctx.check(drv.ask("canon " + core.eshape(S)) == drv.ask("canon " + shapes.enc_desc(d)), "inverse transformation does not restore the region", desc)
     # ---- rotations (numerical)
-    m = 25 if ctx.quick else 600
+    m = 25 if ctx.quick else 200
     for it in range(m):
         kind = shapes.DEFINED[it % len(shapes.DEFINED)]
         S, d = shapes.make(rng, kind, rng.randint(-3, 3), rng.randint(-3, 3), drv)
@@ -110,6 +114,26 @@ def run(ctx):
             ctx.check(abs(float(v1[0]) - ex[0]) < 1e-9 and abs(float(v1[1]) - ex[1]) < 1e-9, "rotated vertex", {**desc, "vertex": v0}, ex, tuple(map(float, v1)))
         S.rotate(-ang, degrees=deg)
         ctx.check(S == S0, "inverse rotation does not restore an equal shape", desc)
+    # ---- a single tiny but exactly representable translation of integer-coordinate shapes of several kinds
+    from shapepy import ConnectedShape
+    tiny = (F(1, 10 ** 9), F(-1, 10 ** 9))
+    sqo, sqh = [(0, 0), (6, 0), (6, 6), (0, 6)], [(2, 2), (2, 4), (4, 4), (4, 2)]
+    for nm, X, vsets in (("simple", shapes.simple(sqo), [sqo]), ("ring", ConnectedShape([shapes.simple(sqo), shapes.simple(sqh)]), [sqo, sqh])):
+        X.move(*tiny)
+        got = sorted(tuple(v) for j in X.jordans for v in j.vertices)
+        exp = sorted((x + tiny[0], y + tiny[1]) for vs in vsets for x, y in vs)
+        ctx.case("tiny-steps", ("single", nm))
+        ctx.check(got == exp, "a translation by 1e-9 (exactly representable) was not applied", {"shape": nm, "move": tiny}, exp[:2], got[:2])
+    # ---- many tiny steps add up
+    J = JordanCurve.from_vertices([(0, 0), (4, 0), (4, 3), (0, 3)])
+    for _ in range(2000):
+        J.move(F(1, 10 ** 9), 0)
+    ctx.case("tiny-steps", "2000 x 1e-9")
+    ctx.check([tuple(v) for v in J.vertices] == [(x + F(2000, 10 ** 9), y) for x, y in [(0, 0), (4, 0), (4, 3), (0, 3)]], "2000 moves by 1e-9 do not add up to a move by 2e-6", {"steps": 2000})
+    Jf = JordanCurve.from_vertices([(0.0, 0.0), (4.0, 0.0), (4.0, 3.0), (0.0, 3.0)])
+    for _ in range(2000):
+        Jf.move(5e-10, -5e-10)
+    ctx.check(abs(float(Jf.vertices[0][0]) - 1e-6) < 1e-12 and abs(float(Jf.vertices[0][1]) + 1e-6) < 1e-12, "2000 float moves by 5e-10 do not add up", {"steps": 2000}, (1e-6, -1e-6), tuple(map(float, Jf.vertices[0])))
     # ---- distinct control points with EQUAL coordinates (two arcs bulging to the same interior point): every one must move
     from shapepy import SimpleShape
     cpt = (F(1), F(3))
